@@ -571,6 +571,8 @@ func init() {
 		c20Func(c, &sb, mt, "TermWriter.writeAtCursor", "writeAtCursor", "multiterm.go writeAtCursor(text)")
 		c20Func(c, &sb, mt, "TermWriter.WriteForLine", "writeForLine", "multiterm.go WriteForLine(line, text)")
 		c20Func(c, &sb, mt, "TermWriter.Close", "close", "multiterm.go Close()")
+		// round 4b: the whole scan of WriteLineNoWrap (c20trim.go)
+		c20TrimScan(c, &sb)
 		sb.WriteString("end Rare.Gen.C20\n")
 		return sb.String()
 	})
